@@ -505,7 +505,8 @@ pub mod utils {
                 analysis.max_line_length = line.len();
             }
 
-            if analysis.min_line_length == 0 || line.len() < analysis.min_line_length {
+            // The first line initialises the minimum (0 is a legitimate minimum: an empty line)
+            if analysis.total_lines == 1 || line.len() < analysis.min_line_length {
                 analysis.min_line_length = line.len();
             }
 
